@@ -63,7 +63,7 @@ package playlist
 
 //@ func MediaPart.marshal
 //@   props C14 C15
-//@   ensures [C15] result in /#EXT-X-PART:DURATION={DF},URI={QS}(,INDEPENDENT=YES)?(,BYTERANGE=("{BR}"|{BR}))?(,GAP=YES)?\n/
+//@   ensures [C14,C15] result in /#EXT-X-PART:DURATION={DF},URI={QS}(,INDEPENDENT=YES)?(,BYTERANGE=("{BR}"|{BR}))?(,GAP=YES)?\n/
 //@   ensures [C15] result in /#EXT-X-PART:DURATION={DF},URI={QS}(,INDEPENDENT=YES)?(,BYTERANGE="{BR}")?(,GAP=YES)?\n/
 //@   emits [C14] "DURATION=" p.Duration
 //@   emits [C14] "URI=\"" p.URI
@@ -71,27 +71,27 @@ package playlist
 
 //@ func MediaPartInf.marshal
 //@   props C14 C15
-//@   ensures [C15] result in /#EXT-X-PART-INF:PART-TARGET={DF}\n/
+//@   ensures [C14,C15] result in /#EXT-X-PART-INF:PART-TARGET={DF}\n/
 //@   emits [C14] "PART-TARGET=" t.PartTarget
 //@ end
 
 //@ func MediaSkip.marshal
 //@   props C14 C15
-//@   ensures [C15] result in /#EXT-X-SKIP:SKIPPED-SEGMENTS={INT}\n/
+//@   ensures [C14,C15] result in /#EXT-X-SKIP:SKIPPED-SEGMENTS={INT}\n/
 //@   emits [C14] "SKIPPED-SEGMENTS=" t.SkippedSegments
 //@ end
 
 //@ func MediaServerControl.marshal
 //@   props C14 C15
-//@   ensures [C15] result in /#EXT-X-SERVER-CONTROL:({ATTRS})?\n/
-//@   ensures [C15] result in /#EXT-X-SERVER-CONTROL:(CAN-BLOCK-RELOAD=YES)?(,?PART-HOLD-BACK={DF})?(,?CAN-SKIP-UNTIL={DF})?\n/
+//@   ensures [C14,C15] result in /#EXT-X-SERVER-CONTROL:({ATTRS})?\n/
+//@   ensures [C14,C15] result in /#EXT-X-SERVER-CONTROL:(CAN-BLOCK-RELOAD=YES)?(,?PART-HOLD-BACK={DF})?(,?CAN-SKIP-UNTIL={DF})?\n/
 //@   emits [C14] "PART-HOLD-BACK=" t.PartHoldBack
 //@   emits [C14] "CAN-SKIP-UNTIL=" t.CanSkipUntil
 //@ end
 
 //@ func MediaPreloadHint.marshal
 //@   props C14 C15
-//@   ensures [C15] result in /#EXT-X-PRELOAD-HINT:TYPE=PART,URI={QS}(,BYTERANGE-START={INT})?(,BYTERANGE-LENGTH={INT})?\n/
+//@   ensures [C14,C15] result in /#EXT-X-PRELOAD-HINT:TYPE=PART,URI={QS}(,BYTERANGE-START={INT})?(,BYTERANGE-LENGTH={INT})?\n/
 //@   emits [C14] "URI=\"" t.URI
 //@   emits [C14] "BYTERANGE-START=" t.ByteRangeStart
 //@   emits [C14] "BYTERANGE-LENGTH=" *t.ByteRangeLength
@@ -99,26 +99,26 @@ package playlist
 
 //@ func MediaMap.marshal
 //@   props C14 C15
-//@   ensures [C15] result in /#EXT-X-MAP:URI={QS}(,BYTERANGE=("{BR}"|{BR}))?\n/
+//@   ensures [C14,C15] result in /#EXT-X-MAP:URI={QS}(,BYTERANGE=("{BR}"|{BR}))?\n/
 //@   ensures [C15] result in /#EXT-X-MAP:URI={QS}(,BYTERANGE="{BR}")?\n/
 //@   emits [C14] "URI=\"" t.URI
 //@ end
 
 //@ func MediaKey.marshal
 //@   props C14 C15
-//@   ensures [C15] result in /#EXT-X-KEY:METHOD=(NONE|AES-128|SAMPLE-AES)(,URI={QS}(,IV=0[xX][0-9a-fA-F]+)?(,KEYFORMAT={QS})?(,KEYFORMATVERSIONS={QS})?)?\n/
+//@   ensures [C14,C15] result in /#EXT-X-KEY:METHOD=(NONE|AES-128|SAMPLE-AES)(,URI={QS}(,IV=0[xX][0-9a-fA-F]+)?(,KEYFORMAT={QS})?(,KEYFORMATVERSIONS={QS})?)?\n/
 //@   emits [C14] "METHOD=" t.Method
 //@ end
 
 //@ func MultivariantStart.marshal
 //@   props C14 C15
-//@   ensures [C15] result in /#EXT-X-START:TIME-OFFSET={SDF}\n/
+//@   ensures [C14,C15] result in /#EXT-X-START:TIME-OFFSET={SDF}\n/
 //@   emits [C14] "TIME-OFFSET=" t.TimeOffset
 //@ end
 
 //@ func MultivariantVariant.marshal
 //@   props C14 C15 C16
-//@   ensures [C15,C16] result in /#EXT-X-STREAM-INF:BANDWIDTH={INT}(,AVERAGE-BANDWIDTH={INT})?,CODECS={QS}(,RESOLUTION=[0-9]+x[0-9]+)?(,FRAME-RATE={DF})?(,VIDEO={QS})?(,AUDIO={QS})?(,SUBTITLES={QS})?(,CLOSED-CAPTIONS={QS})?\n{URILINE}\n/
+//@   ensures [C14,C15,C16] result in /#EXT-X-STREAM-INF:BANDWIDTH={INT}(,AVERAGE-BANDWIDTH={INT})?,CODECS={QS}(,RESOLUTION=[0-9]+x[0-9]+)?(,FRAME-RATE={DF})?(,VIDEO={QS})?(,AUDIO={QS})?(,SUBTITLES={QS})?(,CLOSED-CAPTIONS={QS})?\n{URILINE}\n/
 //@   emits [C14,C16] "#EXT-X-STREAM-INF:BANDWIDTH=" v.Bandwidth
 //@   emits [C14,C16] "AVERAGE-BANDWIDTH=" *v.AverageBandwidth
 //@   emits [C14,C16] "RESOLUTION=" v.Resolution
@@ -127,7 +127,7 @@ package playlist
 
 //@ func MultivariantRendition.marshal
 //@   props C14 C15 C16
-//@   ensures [C15,C16] result in /#EXT-X-MEDIA:TYPE=(AUDIO|VIDEO|SUBTITLES|CLOSED-CAPTIONS),GROUP-ID={QS}(,LANGUAGE={QS})?(,NAME={QS})?(,AUTOSELECT=YES)?(,DEFAULT=YES)?(,FORCED=YES)?(,CHANNELS={QS})?(,URI={QS})?(,INSTREAM-ID={QS})?\n/
+//@   ensures [C14,C15,C16] result in /#EXT-X-MEDIA:TYPE=(AUDIO|VIDEO|SUBTITLES|CLOSED-CAPTIONS),GROUP-ID={QS}(,LANGUAGE={QS})?(,NAME={QS})?(,AUTOSELECT=YES)?(,DEFAULT=YES)?(,FORCED=YES)?(,CHANNELS={QS})?(,URI={QS})?(,INSTREAM-ID={QS})?\n/
 //@   emits [C14,C16] "GROUP-ID=\"" t.GroupID
 //@   emits [C14,C16] "NAME=\"" t.Name
 //@   emits [C14,C16] "LANGUAGE=\"" t.Language
@@ -136,7 +136,7 @@ package playlist
 //@ func MediaSegment.marshal
 //@   props C14 C15
 //@   requires forall(j, (0 <= j && j < len(s.Parts)) ==> s.Parts[j] != nil)
-//@   ensures [C15] result in /(#EXT-X-DISCONTINUITY\n)?(#EXT-X-GAP\n)?(#EXT-X-PROGRAM-DATE-TIME:{TIME}\n)?(#EXT-X-BITRATE:{INT}\n)?(#EXT-X-PART:{ATTRS}\n)*#EXTINF:{DF},[^\r\n]*\n(#EXT-X-BYTERANGE:{BR}\n)?{URILINE}\n/
+//@   ensures [C14,C15] result in /(#EXT-X-DISCONTINUITY\n)?(#EXT-X-GAP\n)?(#EXT-X-PROGRAM-DATE-TIME:{TIME}\n)?(#EXT-X-BITRATE:{INT}\n)?(#EXT-X-PART:{ATTRS}\n)*#EXTINF:{DF},[^\r\n]*\n(#EXT-X-BYTERANGE:{BR}\n)?{URILINE}\n/
 //@   emits [C14] "#EXTINF:" s.Duration
 //@   emits [C14] "#EXT-X-BITRATE:" *s.Bitrate
 //@ end
